@@ -24,7 +24,7 @@ func init() {
 	Registry["C11"] = &Check{
 		Spec: func(tier string) evid.Spec {
 			return evid.Spec{ID: "C11", Level: "exploration", Exhaustive: true,
-				Rule: "command path: rule alphabet = name{configure,show,*} x action{permit,deny} x match{none, [p] for 11 patterns (plain, alternation, partial anchors, escaped/unescaped dot, wildcards, invalid, padded), 6 pairs}; " +
+				Rule: "command path: rule alphabet = name{configure,show,*} x action{permit,deny} x match{none, [p] for 15 patterns (plain, alternation, partial anchors, escaped/unescaped dot, wildcards, invalid, padded, prefix alternations, lazy quantifier, empty branches), 6 pairs}; " +
 					"policies = every single rule, every ordered pair of user rules, every (user rule, group rule) pair over the full alphabet, and every 3- and 4-rule policy (2 user + 1+1 group rules) over a reduced 12-rule alphabet; " +
 					"requests = cmd{configure,show,conf} x 10 argument lists x {service first, cmd first} x {cmd=, cmd*} x {shell, ppp}. session path: 1-3 services (user and group) over name{shell,ppp,junos-exec} x " +
 					"match{none,[protocol=ip],[scope=s1],both} x set_values{[a=1],[b*2],both} x requests{service=shell cmd=, service=ppp protocol=ip, service=ppp protocol=ipx, service*shell, none, and the same with a client-supplied scope=s1 / scope=s2 attribute} x connection scope{s1,s2}. " +
@@ -229,7 +229,9 @@ func keys(m map[string]bool) []string {
 	return out
 }
 
-var c11Patterns = []string{"terminal", "terminal|exclusive", "^terminal", "terminal$", "^(terminal|exclusive)$", "te.minal", `te\.minal`, "t.*", ".*", "(", " terminal "}
+var c11Patterns = []string{"terminal", "terminal|exclusive", "^terminal", "terminal$", "^(terminal|exclusive)$", "te.minal", `te\.minal`, "t.*", ".*", "(", " terminal ",
+	// patterns whose preferred (leftmost-first) match is shorter than the whole-string match another branch allows
+	"t|term|terminal", "terminal|terminal .*", "t.*?", "(|x)terminal(| ; reload)"}
 
 func c11RuleAlphabet(reduced bool) []ref.Rule {
 	var out []ref.Rule
